@@ -11,7 +11,7 @@ for l in open('/verif/seeded/RESULTS.txt'):
     m = re.search(r'bounded=(\d+)', l); nb = int(m.group(1)) if m else 0
     how = st
     if st == 'caught':
-        how = 'proof' if nv > nb else 'bounded'
+        how = 'bounded' if nv == nb else ('proof + bounded' if nb > 0 else 'proof')
     first = ' '.join(f[6:])[:90] if len(f) > 6 else ''
     rows.append((name, prop, how, first))
 by = collections.Counter(r[2] for r in rows)
